@@ -544,6 +544,17 @@ func gamma_incomplete_imp(a, x float64, normalised, invert bool) float64 {
 
   result := 0.0
 
+  if x == 0.0 {
+    // the lower incomplete gamma function vanishes, the upper one is the
+    // complete gamma function
+    if !invert {
+      return 0.0
+    }
+    if normalised {
+      return 1.0
+    }
+    return math.Gamma(a)
+  }
   if(int(a) >= MaxFactorial && !normalised) {
     //
     // When we're computing the non-normalized incomplete gamma
